@@ -11,7 +11,7 @@ from vlib import Rng
 BOUNDARY = ["0", "1", "len-1", "len", "len+1", "2^31", "2^32-1"]
 SAMPLES = ["test.dmp", "linux-mini.dmp", "simple-crashpad.dmp", "invalid-parameter.dmp", "pipeline-inlines-macos-segv.dmp"]
 MODEL_FIELDS = ["R", "SI", "TL", "ML", "UM", "MEM", "M64", "MI", "TI", "TN", "HD", "EX", "EXP", "EXC",
-                "TLP", "MS", "LC", "LS", "LR", "LE", "LL", "MA", "CP", "SIS", "AS", "BP", "MB", "SE", "MC", "RM", "RI", "CA", "TE", "AM", "AL", "AI", "A6", "TG", "TS"]
+                "TLP", "MS", "LC", "LS", "LR", "LE", "LL", "MA", "CP", "SIS", "AS", "BP", "MB", "SE", "MC", "RM", "RI", "CA", "TE", "AM", "AL", "AI", "A6", "TG", "TS", "TIG"]
 # tighter than the brief's max(1 MiB, 64*len^2): the largest single request is LINEAR in the input
 PK_FLOOR = 64 * 1024
 PK_PER_BYTE = 16
@@ -1021,7 +1021,7 @@ class C01(PropBase):
     trusted_base = [
         "Coq 8.16.1 kernel; vm_compute only in witnesses (c01_*_refuted) and non-vacuity examples",
         "hand-written model C01/Model.v of minidump.rs's list/string/directory/handle/exception machinery and of scroll 0.12's Pread bounds rule; "
-        "tied to the code by the correspondence run (39 fields per case + the largest ledger entry as a lower bound of the measured peak request); its record sizes, field offsets / widths, array lengths and the CONTEXT_* table are proved equal to Gen/Layouts.v (translate/format_layouts.py, regenerated from format.rs): c01_layout_pinned",
+        "tied to the code by the correspondence run (40 fields per case + the largest ledger entry as a lower bound of the measured peak request); its record sizes, field offsets / widths, array lengths and the CONTEXT_* table are proved equal to Gen/Layouts.v (translate/format_layouts.py, regenerated from format.rs): c01_layout_pinned",
         "C08's hand-written model of into_rangemap_safe / range-map (RM.C08.Model, validated against the code by C08's own check) under the lookup theorems of C01/LModel.v",
         "translate/c01_sites.py (regex/brace-level scan of the Rust source, not a Rust parser): finds the trap/loop/allocation/guard sites by their surface syntax; "
         "a panic hidden behind a method call it does not know (a new helper crate, an operator trait) is not a site; the classification of coq/C01/Sites.v "
@@ -1047,7 +1047,7 @@ class C01(PropBase):
                 "(c01_*_unfixed_refuted: F-C01a..d). The rest of the property lives in the runtime and is searched, not proved: a harness with a counting "
                 "global allocator and a watchdog opens each case, requests all 24 stream types, runs every accessor and print routine, and an oracle "
                 "requires no panic, termination and a largest single allocation <= max(64 KiB, 16*len); the extracted model must agree with the real "
-                "reader on 39 observables per case. Round 4: the queries on a parsed dump are modelled and proved for both profiles (memory_range of regions / memory info / "
+                "reader on 40 observables per case. Round 4: the queries on a parsed dump are modelled and proved for both profiles (memory_range of regions / memory info / "
                 "modules: c01_memory_range_sound; MinidumpThread::last_error address arithmetic: c01_last_error_in_bounds; get_crash_address: c01_crash_address_total; "
                 "ELF debug id padding: c01_elf_debug_id_reads; the four compared query fields: c01_crash_queries_total). A source scan lists every index / unwrap / "
                 "panic macro / unchecked arithmetic / division / integer cast / allocation / copy / unsafe / loop / inequality / guard site of minidump/src and "
@@ -1055,7 +1055,7 @@ class C01(PropBase):
                 "table C01/Sites.v and c01_sites_classified that every group is covered by a named theorem, safe for a stated reason, or searched by a named harness step - "
                 "a new or edited site, or a removed guard, breaks that obligation before any failing input is needed. "
                 "Round 5: the address / id lookups are inside the model (from_modules / from_regions + module_at_address, memory_at_address of both memory lists, memory_info_at_address, by_addr, "
-                "get_thread, Minidump::get_memory and the MinidumpThread::stack_memory fallback; six compared fields AM AL AI A6 TG TS) over C08's range-map model: for ANY list of optional ranges the table build does not panic, every stored index and every "
+                "get_thread, Minidump::get_memory and the MinidumpThread::stack_memory fallback; get_thread_info; seven compared fields AM AL AI A6 TG TS TIG) over C08's range-map model: for ANY list of optional ranges the table build does not panic, every stored index and every "
                 "index a lookup returns is a position of the list whose own range contains the address (c01_address_lookup_total, c01_unloaded_lookup_in_range, c01_get_thread_index_total, "
                 "c01_lookups_total and c01_stack_source_total for every byte string). The layout constants of the models (35 record sizes, 75 field offsets/widths, 5 array lengths, the CONTEXT_* table) are proved equal to "
                 "the layouts regenerated from format.rs (c01_layout_pinned), and every index site with an integer-literal index found by the scan (394 sites) is proved below the length of its "
